@@ -151,6 +151,7 @@ def main():
         mods += ["data/m/" + x for x in extra[: (6 if tier == "quick" else 120)]]
         gendir = tempfile.mkdtemp(prefix="vp-c16-", dir="/var/tmp")
         genmods = []
+        genmeta = {}
         if not replay:
             for gi in range(16 if tier == "quick" else 300):
                 fmt = ("mod", "xm", "s3m", "it")[gi % 4]
@@ -164,6 +165,7 @@ def main():
                 gp = os.path.join(gendir, "g%03d.%s" % (gi, fmt))
                 open(gp, "wb").write(modgen.WRITERS[fmt](song))
                 genmods.append(gp)
+                genmeta[gp] = (list(song['orders']), [len(pt) for pt in song['patterns']])
         mods = mods + genmods
         if replay:
             rp = json.load(open(replay)); mods = [rp["module"]]
@@ -188,6 +190,15 @@ def main():
                     if rep == 2:
                         # uninterrupted playback well past the first loop: the loop counter must never decrease
                         script = [("P", 2500 if tier == "quick" else 12000)]
+                    if rep == 0 and m in genmeta:
+                        # motif for patterns of different lengths: from inside a long pattern ask for an order holding a shorter one and, before
+                        # the next frame, for rows around the end of the *target* pattern (the rows between the two lengths must be refused)
+                        go, gr = genmeta[m]
+                        longs = [j for j, pt in enumerate(go) if gr[pt] == max(gr[q] for q in go)]
+                        shorts = [k for k, pt in enumerate(go) if gr[pt] < gr[go[longs[0]]]] if longs else []
+                        for k in shorts[:4]:
+                            for rr in sorted({gr[go[k]] - 1, gr[go[k]], gr[go[k]] + 1, gr[go[longs[0]]] - 1}):
+                                script += [("SP", longs[0]), ("P", 1), ("SP", k), ("SR", rr), ("P", 2)]
                     for _ in range(0 if rep == 2 else (14 if tier == "quick" else 40)):
                         # sometimes several control calls in a row with no frame played in between
                         script.append(("P", rng.choice((0, 0, 1, 2, 7, 30, 60))))
